@@ -554,12 +554,109 @@ def r7_keywords_are_whole_words(ctx, rep):
     from . import common
     common.keyword_substring(ctx, rep)
 
+
+def r8_placeholder_table(ctx, rep):
+    """character literals are masked by the scanner of the *enclosing* container and replaced by indices into that
+    container's table; an entity that resolves a placeholder while it is being constructed must use the table it was
+    handed (`strings` constructor argument) or its parent's - its own `self.strings` is empty unless some construction
+    site passes the argument"""
+    py = ctx.py
+    base_init = py.func("FortranBase.__init__")
+    if "strings" not in [a.arg for a in base_init.args.args]:
+        raise AnalysisError("FortranBase.__init__ has no `strings` parameter")
+    pos = [a.arg for a in base_init.args.args].index("strings") - 1      # position among call arguments (self excluded)
+    receives: Set[str] = set()
+    n_sites = 0
+    for _m, tree in py.modules.items():
+        for c in ast.walk(tree):
+            if isinstance(c, ast.Call) and isinstance(c.func, ast.Name) and c.func.id in py.classes and \
+                    py.is_subclass(c.func.id, "FortranBase"):
+                n_sites += 1
+                if len(c.args) > pos or any(k.arg == "strings" for k in c.keywords):
+                    receives.add(c.func.id)
+    if n_sites < 15:
+        raise AnalysisError(f"only {n_sites} construction sites of entity classes found")
+    n = 0
+    for cname in sorted(py.classes):
+        if not py.is_subclass(cname, "FortranBase") or py.classes[cname].module != "sourceform":
+            continue
+        own = py.classes[cname].methods.get("_initialize")
+        if own is None:
+            continue
+        reads = [a for a in ast.walk(own) if isinstance(a, ast.Attribute) and a.attr == "strings" and isinstance(a.ctx, ast.Load)
+                 and isinstance(a.value, ast.Name) and a.value.id == "self"]
+        def parentless_fallback(a) -> bool:
+            # `self.parent.strings if self.parent is not None else self.strings`: the own table only stands in when there is no
+            # enclosing scanner at all
+            p = a
+            while p is not own and p in py.parents:
+                p = py.parents[p]
+                if isinstance(p, (ast.IfExp, ast.If)) and "self.parent" in ast.unparse(p.test):
+                    return True
+            return False
+        for a in reads:
+            if parentless_fallback(a):
+                continue
+            n += 1
+            users = {cname} | set(py.subclasses(cname))
+            ok = bool(users & receives)
+            rep.ob(f"{cname}._initialize reads self.strings: some construction site passes the table", ok,
+                   "the literal table is handed to the constructor" if ok else
+                   f"no construction site of {cname} passes `strings`, so `self.strings` is always empty here: a placeholder left in "
+                   f"the statement head by the enclosing scanner (e.g. `character(kind=kind('a')) function f()`) raises IndexError "
+                   f"and the whole file is dropped; the table that holds it is self.parent.strings", py.nloc(a), nontrivial=not ok)
+    # vacuity guard: the rule is about a zero-count pattern after repair; count the _initialize methods inspected
+    k = sum(1 for c in py.classes if py.is_subclass(c, "FortranBase") and "_initialize" in py.classes[c].methods)
+    rep.ob("entity constructors inspected for reads of their own literal table", k >= 10, f"{k} _initialize methods, {n_sites} construction sites",
+           "ford/sourceform.py", nontrivial=False)
+
+
+def r9_kind_suffix(ctx, rep):
+    """an enumerator value with a kind suffix is an integer literal: the suffix must be split off completely, also when
+    the kind name contains underscores (`1_c_int`)"""
+    py = ctx.py
+    # the kind suffix of a numeric literal (`1_c_int`, `1.0_wp`) starts at the FIRST underscore: kind names may contain
+    # underscores themselves.  Decided on the regex syntax tree: a greedy repeat that can run over `_` in front of the
+    # separator puts the split at the last underscore
+    import re._parser as sre
+    pat, flags, node, _ = ctx.regexes["sourceform.KIND_SUFFIX_RE"]
+    tree = sre.parse(pat, flags)
+    gi = tree.state.groupdict.get("initial")
+    items = list(tree)
+    idx = next((i for i, (op, av) in enumerate(items) if str(op) == "SUBPATTERN" and av[0] == gi), None)
+    if gi is None or idx is None or idx + 1 >= len(items) or str(items[idx + 1][0]) != "LITERAL" or items[idx + 1][1] != ord("_"):
+        raise AnalysisError("KIND_SUFFIX_RE: expected (?P<initial>...)_(?P<kind>...)")
+    body = list(items[idx][1][3])
+    def can_match_underscore(op, av) -> bool:
+        o = str(op)
+        if o == "ANY":
+            return True
+        if o == "LITERAL":
+            return av == ord("_")
+        if o == "NOT_LITERAL":
+            return av != ord("_")
+        if o == "IN":
+            neg = any(str(x[0]) == "NEGATE" for x in av)
+            hit = any((str(x[0]) == "LITERAL" and x[1] == ord("_")) or (str(x[0]) == "RANGE" and x[1][0] <= ord("_") <= x[1][1])
+                      or (str(x[0]) == "CATEGORY" and str(x[1]) in ("CATEGORY_WORD",)) for x in av)
+            return hit != neg
+        return True
+    greedy_over_us = [(op, av) for op, av in body if str(op) == "MAX_REPEAT" and av[1] > 1 and any(can_match_underscore(o2, a2) for o2, a2 in av[2])]
+    ok = not greedy_over_us
+    rep.ob("KIND_SUFFIX_RE splits a numeric literal at the first underscore", ok,
+           "the part before the separator cannot run greedily over an underscore" if ok else
+           "`(?P<initial>.*)_` is greedy: for `1_c_int` the value becomes `1_c` and the kind `int`, so the enumerator is rejected "
+           "as non-integer (the whole file is dropped) and initial values are shown with a piece of the kind name",
+           py.nloc(node), witness=None if ok else "1_c_int")
+
 RULES = [
     RuleSpec("C01.R5", r5_character_slots, "character selector slots are filled at most once", floor=2),
     RuleSpec("C01.R1", r1_case_neutral, "case-neutral recognition", floor=24),
     RuleSpec("C01.R2", r2_lower_discipline, "lower-case discipline for keyword comparisons", floor=25),
     RuleSpec("C01.R4", r4_container_matrix, "container x construct matrix", floor=50),
     RuleSpec("C01.R3", r3_dispatch_matrix, "dispatch matrix vs statement-head languages", floor=151),
+    RuleSpec("C01.R8", r8_placeholder_table, "placeholders are resolved against the table that holds them", floor=1),
+    RuleSpec("C01.R9", r9_kind_suffix, "numeric kind suffix is split at the first underscore", floor=1),
     RuleSpec("C01.R7", r7_keywords_are_whole_words, "keywords are recognised as whole words", floor=1),
     RuleSpec("C01.R6", r6_order_bearing_collections, "order-bearing collections are never sorted", floor=2),
 ]
